@@ -76,7 +76,7 @@ PROPS = {
     ),
     'C15': dict(
         level='proof',
-        contracts=['C15'],
+        contracts=['C15', 'C03'],
         frames=[],
         technique='deductive: VCs from the real AST of _lscmp, cookie_is_encoded, cookie_decode (pickle.loads dominated by the signature '
                   'equality), cookie_encode (+ inverse lemma from library axioms), get_cookie; bounded run-time check of the SimpleCookie '
@@ -155,7 +155,7 @@ PROPS = {
     ),
     'C18': dict(
         level='proof',
-        contracts=['C18', 'C12', 'collect'],
+        contracts=['C18', 'C12', 'collect', 'reqobj'],
         frames=[],
         technique='deductive: loop-invariant VCs (three nested loops, cut lemmas) from the real AST of parse_qsl over z3 strings, '
                   'z3 then cvc5; bounded check of list promotion and of the encode->parse round trip as replay harness',
